@@ -615,3 +615,344 @@ func runC03Text(c *Ctx, bt *Batch) {
 		c03ALMonitor(c, bt, stream, tc.Idx, in, tc.F, tc.J, tc.Stdout)
 	}
 }
+
+// ---------------------------------------------------------------- stream manyfiles: valued reports over MANY included files, under schedules
+//
+// journal.FromPath loads the members of an include tree concurrently: one goroutine parses each file, one converts each parsed
+// file into model directives, one consumer files the batches under their days.  Whether the price history the report is valued
+// with is the journal's own then also depends on every batch arriving whole and once - whatever the order and the overlap in
+// which the files are parsed, converted and consumed.  Stream text has 2-6 files per tree and one run per tree; here
+//   the journal: as in stream text (half of them with a quote history, c03Requote), plus 0 / tens / hundreds of bulk bookings
+//       (a booking of the journal repeated forth and back on its own day: positions and values unchanged);
+//   the tree: 6-16 SMALL files, each starting with price declarations (the price declarations are dealt to them by day or by
+//       pair, so a day's declarations of one pair stay in one file in their order) followed by none or a few of the other
+//       directives, next to 0-3 LARGER files (the bulk, chunks of the other directives) and the main file; flat or behind an
+//       index file, include lines first / last / in between and shuffled;
+//   the runs: every tree is loaded under GOMAXPROCS 1 / 2 / 16, each with the natural schedule and with a KNUT_VERIF_SEED
+//       schedule of the cpr hooks (quick 18 runs per tree, thorough 36; a replay 120).
+//   monitor  shown_equals_mark_to_market / missing_price_is_error (c03ALMonitor) on the real output of EVERY accepted run (once
+//       per distinct output of a tree), Spec.mtm evaluated on the union of the files (the generator's journal in wire form)
+//   compare  c02text: every distinct outcome of a tree against the pipeline model on the text of the files
+// (Seeded change C03-l recycled the slice a converted file is handed over in through a sync.Pool as soon as the hand-over
+// returned: a file converted while the consumer was still walking the previous batch overwrote it; lost price declarations gave
+// values at a stale price, exit 0.)
+
+type c03ManyRun struct {
+	Procs  int
+	Sched  int
+	Code   int
+	Stdout string
+	Stderr string
+}
+
+func (ru *c03ManyRun) env() []string {
+	env := []string{fmt.Sprintf("GOMAXPROCS=%d", ru.Procs)}
+	if ru.Sched != 0 {
+		env = append(env, fmt.Sprintf("KNUT_VERIF_SEED=%d", ru.Sched))
+	}
+	return env
+}
+
+func c03GenManyCase(r, rq *RNG, i int) *c03TextCase {
+	o := JGenOpts{MaxAccounts: r.Range(2, 6), MaxDays: r.Range(3, 12), BaseDay: 737000 + r.Intn(1500), SpanDays: Pick(r, []int{5, 40, 100, 400}),
+		Prices: true, Valuation: Pick(r, []string{"CHF", "USD"}), ManyDecimals: r.Chance(1, 3), ChainPrices: r.Chance(1, 3), DupPrices: true, ManyPricesPerDay: r.Chance(1, 4)}
+	j, tags := GenJournal(r, o)
+	requoted := rq.Chance(1, 2)
+	if requoted {
+		tags = append(tags, c03Requote(rq, j, o.Valuation)...)
+	}
+	tc := &c03TextCase{Idx: i, Tags: tags, Fault: "none", Holds: "-"}
+	f := GenBalFlags(r, j, o.Valuation, BalGenOpts{Valued: true, NoFilters: true})
+	f.Map, f.Remap, f.Show, f.Diff, f.CSV, f.Thousands = nil, nil, nil, false, false, false
+	f.Digits = 10
+	f.Val = o.Valuation
+	if requoted {
+		c03QuoteColumns(rq, j, &f)
+	}
+	tc.F = f
+
+	// ---- bulk: plain bookings of the journal repeated forth and back right after the original (same day: nothing changes)
+	bulkN := Pick(r, []int{0, 0, 10, 30, 80, 200})
+	var plain []int
+	for k, d := range j.Dirs {
+		if d.Kind == 't' && d.Accrual == nil && d.Targets == nil && len(d.Bookings) > 0 {
+			plain = append(plain, k)
+		}
+	}
+	isBulk := make([]bool, len(j.Dirs))
+	if bulkN > 0 && len(plain) > 0 {
+		after := map[int]int{}
+		for b := 0; b < bulkN; b++ {
+			after[Pick(r, plain)]++
+		}
+		var dirs []JDir
+		isBulk = isBulk[:0]
+		for k, d := range j.Dirs {
+			dirs = append(dirs, d)
+			isBulk = append(isBulk, false)
+			for b := 0; b < after[k]; b++ {
+				bk := d.Bookings[r.Intn(len(d.Bookings))]
+				back := JDir{Kind: 't', Date: d.Date, Desc: fmt.Sprintf("bulk %d back", b), Bookings: []JBook{{Credit: bk.Debit, Debit: bk.Credit, Qty: bk.Qty, Com: bk.Com}}}
+				forth := JDir{Kind: 't', Date: d.Date, Desc: fmt.Sprintf("bulk %d forth", b), Bookings: []JBook{bk}}
+				dirs = append(dirs, back, forth)
+				isBulk = append(isBulk, true, true)
+			}
+		}
+		j.Dirs = dirs
+		tc.Tags = append(tc.Tags, "bulk-bookings")
+	}
+	tc.J = j
+	n := len(j.Dirs)
+
+	// ---- files: 0 main, 1..nSmall small, then nBig larger ones, then (perhaps) an index file
+	nSmall := r.Range(6, 16)
+	nBig := Pick(r, []int{0, 1, 1, 2, 3})
+	nf := 1 + nSmall + nBig
+	owner := make([]int, n)
+	deal := Pick(r, []string{"by-day", "by-pair"})
+	keyFile := map[string]int{}
+	nKeys := 0
+	for k, d := range j.Dirs {
+		if d.Kind != 'p' {
+			continue
+		}
+		a, b := d.Com, d.Target
+		if a > b {
+			a, b = b, a
+		}
+		key := a + "\x00" + b
+		if deal == "by-day" {
+			key = itoa(d.Date)
+		}
+		fl, ok := keyFile[key]
+		if !ok {
+			// the first keys go to the small files in turn (every small file starts with prices when there are enough of them)
+			fl = 1 + nKeys
+			if nKeys >= nSmall {
+				fl = 1 + r.Intn(nSmall)
+			}
+			nKeys++
+			keyFile[key] = fl
+		}
+		owner[k] = fl
+	}
+	var bookFiles []int // where the other directives go: main, the larger files, a few of the small ones
+	bookFiles = append(bookFiles, 0)
+	for b := 0; b < nBig; b++ {
+		bookFiles = append(bookFiles, 1+nSmall+b, 1+nSmall+b)
+	}
+	for s := r.Intn(4); s > 0; s-- {
+		bookFiles = append(bookFiles, 1+r.Intn(nSmall))
+	}
+	bulkFile := 0
+	if nBig > 0 {
+		bulkFile = 1 + nSmall + r.Intn(nBig)
+	}
+	cur := Pick(r, bookFiles)
+	for k, d := range j.Dirs {
+		switch {
+		case d.Kind == 'p':
+		case isBulk[k]:
+			owner[k] = bulkFile
+			if r.Chance(1, 50) && nBig > 0 {
+				bulkFile = 1 + nSmall + r.Intn(nBig)
+			}
+		default:
+			if r.Chance(1, 4) {
+				cur = Pick(r, bookFiles)
+			}
+			owner[k] = cur
+		}
+	}
+	pricesFirst := !r.Chance(1, 5)
+	// the price declarations of a small file: oldest day first (as fetched), or newest day first (the order inside a day kept:
+	// it decides which of two declarations of a pair wins)
+	newestFirst := pricesFirst && r.Bool()
+	items := make([][]string, nf)
+	for pass := 0; pass < 2; pass++ {
+		for k := 0; k < n; k++ {
+			fl := owner[k]
+			isP := j.Dirs[k].Kind == 'p'
+			small := fl >= 1 && fl <= nSmall && pricesFirst
+			if small && isP == (pass == 0) || !small && pass == 0 {
+				items[fl] = append(items[fl], j.Dirs[k].Text())
+			}
+		}
+		if pass == 0 && newestFirst {
+			for fl := 1; fl <= nSmall; fl++ {
+				var days [][]string // the file's declarations so far are prices in date order: group by date, reverse the groups
+				for q, it := range items[fl] {
+					if q == 0 || it[:10] != items[fl][q-1][:10] {
+						days = append(days, nil)
+					}
+					days[len(days)-1] = append(days[len(days)-1], it)
+				}
+				items[fl] = items[fl][:0:0]
+				for q := len(days) - 1; q >= 0; q-- {
+					items[fl] = append(items[fl], days[q]...)
+				}
+			}
+		}
+	}
+	if newestFirst {
+		tc.Tags = append(tc.Tags, "many:newest-price-first")
+	}
+	ext := Pick(r, []string{".prices", ".knut", ".knut"})
+	pdir := Pick(r, []string{"", "", "prices/", "data/quotes/"})
+	path := make([]string, nf)
+	path[0] = "main.knut"
+	for fl := 1; fl < nf; fl++ {
+		if fl <= nSmall {
+			path[fl] = fmt.Sprintf("%sq%02d%s", pdir, fl, ext)
+		} else {
+			path[fl] = fmt.Sprintf("%s%d.knut", Pick(r, []string{"bookings", "tx", "year"}), fl-nSmall)
+		}
+		if len(items[fl]) == 0 {
+			items[fl] = append(items[fl], "# "+Pick(r, []string{"prices", "fetched by knut fetch", "nothing yet"})+"\n")
+		}
+	}
+	tree := Pick(r, []string{"flat", "flat", "index"})
+	parent := make([]int, nf)
+	if tree == "index" { // the small files behind an index file that only includes
+		path = append(path, pdir+Pick(r, []string{"all.knut", "index.knut", "quotes.knut"}))
+		items = append(items, nil)
+		parent = append(parent, 0)
+		for fl := 1; fl <= nSmall; fl++ {
+			parent[fl] = nf
+		}
+		nf++
+	}
+	order := make([]int, 0, nf)
+	for fl := 1; fl < nf; fl++ {
+		order = append(order, fl)
+	}
+	if r.Chance(2, 3) {
+		for k := len(order) - 1; k > 0; k-- {
+			q := r.Intn(k + 1)
+			order[k], order[q] = order[q], order[k]
+		}
+	}
+	where := r.Intn(3)
+	for _, fl := range order {
+		p := parent[fl]
+		inc := path[fl]
+		if p != 0 {
+			inc = strings.TrimPrefix(inc, pdir)
+		}
+		line := "include \"" + inc + "\"\n"
+		at := len(items[p])
+		switch where {
+		case 0:
+			at = 0
+		case 1:
+			at = r.Intn(len(items[p]) + 1)
+		}
+		items[p] = append(items[p][:at:at], append([]string{line}, items[p][at:]...)...)
+	}
+	for fl := 0; fl < nf; fl++ {
+		text := strings.Join(items[fl], "\n")
+		tc.Disk = append(tc.Disk, c03DiskOp{Kind: "file", Path: path[fl], Text: text})
+		tc.Files = append(tc.Files, c02File{Path: path[fl], Text: text})
+	}
+	tc.Layout, tc.Tree = "many-"+deal, tree
+	tc.Tags = append(tc.Tags, fmt.Sprintf("many:small-files-%d", nSmall/4*4), fmt.Sprintf("many:larger-files-%d", nBig), fmt.Sprintf("many:bulk-%d", bulkN))
+	return tc
+}
+
+func runC03Many(c *Ctx, bt *Batch) {
+	const stream = "manyfiles"
+	n := c.N(200, 1500)
+	root := filepath.Join(c.WorkDir, "c03many")
+	os.MkdirAll(root, 0o755)
+	var cases []*c03TextCase
+	for i := 0; i < n; i++ {
+		if c.Want(stream, i) {
+			cases = append(cases, c03GenManyCase(c.Rng(stream, i), c.Rng(stream+"+quotes", i), i))
+		}
+	}
+	reps := c.N(3, 6)
+	if c.Replay {
+		reps = 20
+	}
+	runs := make([][]*c03ManyRun, len(cases))
+	for k, tc := range cases {
+		rs := c.Rng(stream+"+sched", tc.Idx)
+		for rep := 0; rep < reps; rep++ {
+			for _, p := range []int{1, 2, 16} {
+				runs[k] = append(runs[k], &c03ManyRun{Procs: p}, &c03ManyRun{Procs: p, Sched: 1 + rs.Intn(1<<30)})
+			}
+		}
+	}
+	parallelFor(len(cases), 16, func(k int) {
+		tc := cases[k]
+		dir := filepath.Join(root, fmt.Sprintf("c%d", tc.Idx))
+		os.MkdirAll(dir, 0o755)
+		for _, f := range tc.Disk {
+			p := filepath.Join(dir, filepath.FromSlash(f.Path))
+			os.MkdirAll(filepath.Dir(p), 0o755)
+			os.WriteFile(p, []byte(f.Text), 0o644)
+		}
+		args := append([]string{"balance"}, tc.F.Args()...)
+		args = append(args, filepath.Join(dir, "main.knut"))
+		for _, ru := range runs[k] {
+			ru.Code, ru.Stdout, ru.Stderr = runKnut(c.KnutBin, 20*time.Second, ru.env(), args...)
+		}
+		os.RemoveAll(dir)
+	})
+	for k, tc := range cases {
+		tc := tc
+		for _, t := range tc.Tags {
+			c.Tag(t)
+		}
+		var files []string
+		for _, f := range tc.Files {
+			files = append(files, Hex(f.Path)+":"+Hex(f.Text))
+		}
+		seen := map[string]bool{}
+		for _, ru := range runs[k] {
+			ru := ru
+			c.Evals++
+			tc.Code, tc.Stdout, tc.Stderr = ru.Code, ru.Stdout, ru.Stderr
+			impl := tc.implOutcome()
+			out := strings.Fields(impl)[0]
+			c.Tag("many:" + out)
+			if ru.Code == -2 {
+				continue // a loaded machine; the watchdog is no verdict
+			}
+			if seen[impl] { // the same outcome as an earlier run of this tree: judged there
+				c.Tag("many:same-outcome-under-another-schedule")
+				continue
+			}
+			if len(seen) > 0 {
+				c.Tag("many:outcome-differs-between-schedules")
+			}
+			seen[impl] = true
+			c.Class(fmt.Sprintf("c03many/%s/%s/%s/files%d/%s", out, tc.Layout, tc.Tree, len(tc.Disk)/4*4, flagClass(tc.F)))
+			in := tc.Input()
+			in["GOMAXPROCS"] = ru.Procs
+			in["KNUT_VERIF_SEED"] = ru.Sched
+			in["note"] = "the outcome may depend on the schedule: a replay loads the tree 120 times"
+			code, stdout, stderr := ru.Code, ru.Stdout, ru.Stderr
+			if len(tc.J.Dirs) <= 150 || c.Thorough() || c.Replay { // (the text model on a large tree costs about a second)
+				bt.Add(func(model string) {
+					if model == "unsupported" || model == "bad-op" {
+						return
+					}
+					if !c.Compare(stream, tc.Idx, "c02text", in, impl, modelOutcomeCanon(model)) {
+						if f := &c.Findings[len(c.Findings)-1]; f.Kind == "disagree" && f.Stream == stream && f.Index == tc.Idx { // (not recorded beyond the cap)
+							if strings.HasPrefix(model, "ok ") {
+								f.Model = clip(UnHex(strings.TrimPrefix(model, "ok ")))
+							}
+							f.Impl = clip(fmt.Sprintf("exit %d\n%s\n%s", code, stdout, stderr))
+						}
+					}
+				}, append([]string{"c02text", tc.F.Wire(today())}, files...)...)
+			}
+			if ru.Code != 0 {
+				c.Tag("rejected")
+				continue
+			}
+			c03ALMonitor(c, bt, stream, tc.Idx, in, tc.F, tc.J, ru.Stdout)
+		}
+	}
+}
